@@ -337,6 +337,13 @@ def run(ctx, rep):
     # the event does not move the cost of the shares it was apportioned to (seeded change C11-s7)
     import rules.c09 as c09
     c09.shared_index_space(R, rep, "R6")
+    # "moves … by exactly": the adjustment a lot received is part of every price later taken from that lot — the three places that
+    # price a share of a lot agree on (amount×price + fees + offset) ÷ amount (shared with C03-R2); a floor at zero on one lot's
+    # adjusted cost drops the part of a return that exceeded that lot's own cost (seeded change C11-s8)
+    r7 = _Report("tmp")
+    c03.sibling_unit_cost(R, r7)
+    for o in r7.obligations:
+        rep.ob("R7", o["instance"], o["ok"], o["detail"], o["site"], key="R7:" + o["instance"])
     import rules.c08 as c08
     from core import Report
     r2 = Report("tmp")
